@@ -145,6 +145,10 @@ func (el *eventloop) read(c *conn) error {
 }
 
 func (el *eventloop) cread(c *conn) error {
+	if c.closing {
+		// the client has quit: whatever it still sends is ignored
+		return nil
+	}
 	for {
 		r, err := c.cread()
 		if err == codec.ErrInvalidResp {
@@ -182,6 +186,12 @@ func (el *eventloop) cread(c *conn) error {
 		switch action {
 		case None:
 		case Close:
+			if !c.inMsgQueue.Empty() {
+				// replies are still queued (at least the one to this request):
+				// the connection is closed as soon as they have been delivered
+				c.closing = true
+				return nil
+			}
 			return el.closeConn(c, nil, ProxyEof)
 		case Shutdown:
 			return gerrors.ErrEngineShutdown
@@ -366,6 +376,10 @@ func (el *eventloop) flushDone(c *conn) {
 			break
 		}
 		MsgPool.Put(msg)
+	}
+
+	if c.closing && c.inMsgQueue.Empty() {
+		_ = el.closeConn(c, nil, ProxyEof)
 	}
 }
 
